@@ -492,6 +492,17 @@ func (c *caseRun) usable(op, pair, oldType string, sl *slot, det func() map[stri
 	r.Count("installs-judged/"+op+"/"+in.typ, 1)
 
 	miss := c.missingInit(sl)
+	if in.typ == tTM && in.tmDelay > 0 {
+		// the other half of "verify once the delay has passed": in the very block that installed the consensus state
+		// (whatever the client held for that height before) its delay has not even begun to pass
+		if perr := c.verify(sl, in.commitment, in.proof); perr == nil {
+			d := det()
+			d["time_delay_ns"] = in.tmDelay
+			c.viol(op+"/tendermint/proof-at-installed-height-honoured-before-the-delay", d)
+		} else {
+			r.Count("proofs/tendermint/refused-in-the-installing-block", 1)
+		}
+	}
 	ctx := n.ViewCtx()
 	var st exported.Status = "no-client"
 	if cs, ok := ck.GetClientState(ctx, sl.name); ok {
